@@ -31,7 +31,7 @@ def adversarial_sender(rng, tier, rate_limit=True, gens=False, stops=False):
         params['rate_limit_max_bitrate'] = int(txdl * 8 / w) + rng.choice([1, 1, 50, 2000, 100000])
     tfc = tfc_ms * 1000000
     pre = gen.prefix_len(a, 'tx')
-    ops = [{'op': 'layer', 'i': 0, 'addr': a, 'params': params}]
+    ops = [{'op': 'layer', 'i': 0, 'addr': a, 'params': params, 'watch_tx': True}]
     rid = 0
     c = max(1, txdl - 1 - pre)
 
@@ -121,6 +121,10 @@ def judge_sender(sc, lines_in, impl_out, check_outcomes=True):
     cur = None           # id whose frames are being emitted
     cur_frames = []
     budget = 0
+    count = 0            # Consecutive Frames emitted since the sender last waited (observed through 'txw')
+    granted = 0          # largest block size granted since it last waited (INF for BS = 0)
+    recent = 0           # largest block size granted since the last data frame was emitted
+    watched = any(op['op'] == 'layer' and op.get('watch_tx') for op in sc['ops'])
     ended = set()
     grace = False        # a frame built in the same tx pass as the outcome may follow it
 
@@ -136,6 +140,12 @@ def judge_sender(sc, lines_in, impl_out, check_outcomes=True):
                 c = ref.classify(e['data'][pre_rx:])
                 if c[0] == 'fc' and c[1] == 0 and cur is not None and cur_frames:
                     budget = max(budget, INF if c[2] == 0 else c[2])
+                    granted = max(granted, INF if c[2] == 0 else c[2])
+                    recent = max(recent, INF if c[2] == 0 else c[2])
+            elif e['k'] == 'txw':
+                # this transmit pass begins with the sender waiting: a new stretch starts; only grants received during the wait count
+                count = 0
+                granted = recent
             elif e['k'] == 'tx':
                 body = e['data'][len(prefix):]
                 c = ref.classify(body)
@@ -157,6 +167,13 @@ def judge_sender(sc, lines_in, impl_out, check_outcomes=True):
                     k = len(cur_frames)
                     if k >= len(exp) or exp[k] != e['data']:
                         out.append(('prefix', 'request %d frame %d is %s; not a prefix of its reference segmentation' % (cur, k, e['data'].hex())))
+                if c[0] in ('cf', 'ff', 'sf'):
+                    recent_before, recent = recent, 0
+                if c[0] == 'cf' and watched:
+                    count += 1
+                    if count > granted:
+                        out.append(('block_bound', 'request %d: %d Consecutive Frames emitted since the sender last waited, largest block size granted since then is %s' % (
+                            cur, count, 'none' if granted == 0 else granted)))
                 if c[0] == 'cf':
                     if budget == 0:
                         out.append(('block_bound', 'Consecutive Frame of request %d emitted with no block-size budget left (before the first ContinueToSend or beyond the granted block)' % cur))
@@ -164,6 +181,9 @@ def judge_sender(sc, lines_in, impl_out, check_outcomes=True):
                         budget -= 1
                 elif c[0] == 'ff':
                     budget = 0
+                    count = 0
+                    granted = 0
+                    recent = 0
                 cur_frames.append(e['data'])
             elif e['k'] == 'done':
                 if e['id'] in queue and e['id'] != cur:
